@@ -36,6 +36,9 @@ def run(ctx):
         "alloc_cases_not_required": run.alloc_counts.get("alloc_not_required", 0),
         "payload_ids_measured": sorted({x["x"]["o"]["id"] for x in alloc_cases if x["x"]["allocFree"]}),
         "statuses": sorted({x["status"] for x in alloc_cases}),
+        "alloc_dimensions": {"quiet": sorted({x["x"]["quiet"] for x in alloc_cases}), "log": sorted({x["x"]["log"] for x in alloc_cases}),
+                             "measured_quiet": run.alloc_counts.get("alloc_measured_quiet", 0),
+                             "measured_log_default": run.alloc_counts.get("alloc_measured_log_default", 0)},
         "contradictions_by_key": counts,
         "drift": {k: v for k, v in run.drift().items() if k.split(":")[0] in ("tracked", "view-end", "alloc-case-id", "alloc-precondition", "mechanism")},
         "samples": run.samples(["alloc", "parse"]), "exhaustive": False,
